@@ -38,7 +38,7 @@ def run(ctx):
         kept = os.path.join(REPLAYS, "C19-%s-%d-trace-text.ndjson" % (ctx.tier, ctx.seed))
         shutil.copy(tr, kept)
         for b in bads:
-            ctx.violation(b["check"], {"trace_line": b["line"]}, {"kind": "trace", "trace": kept, "line": b["line"], "module": "TextMC"})
+            ctx.violation(b["check"], {"trace_line": b["line"]}, {"kind": "trace", "record_args": [str(a) for a in h["args"]], "trace": kept, "line": b["line"], "module": "TextMC"})
     # Rust-side consistency of the alternative entry points (byte / slice / str)
     first = json.loads(open(tr).readline())
     if first.get("entry_points_agree") is not True:
